@@ -191,9 +191,11 @@ impl Archive {
     /// Return the last completely-written band id, if any.
     pub async fn last_complete_band(&self) -> Result<Option<Band>> {
         for band_id in self.list_band_ids().await?.into_iter().rev() {
-            let b = Band::open(self, band_id).await?;
-            if b.is_closed().await? {
-                return Ok(Some(b));
+            // Look for the tail before opening the band: a newer band that was
+            // interrupted before its head was written can't be opened, and that
+            // must not hide the complete bands before it.
+            if self.band_is_closed(band_id).await? {
+                return Ok(Some(Band::open(self, band_id).await?));
             }
         }
         Ok(None)
